@@ -863,7 +863,7 @@ function visitors.Return(context, node, emitter)
     else
       emitter:add_value(deferemitter)
       emitter:add_indent('return ')
-      emitter:add_converted_val(rettype, retnode, nil, true)
+      emitter:add_converted_val(rettype, retnode)
       emitter:add_ln(';')
     end
   else -- multiple returns
